@@ -163,6 +163,7 @@ Proof.
 Qed.
 
 (* ===================================================================== Part B: refinement *)
+Local Opaque N.add N.mul N.sub.
 
 Definition key (e : elem) : N * list N := (llid (e_hdr e), e_body e).
 Definition raw (e : elem) : N * list N := (e_hdr e, e_body e).
@@ -251,6 +252,12 @@ Proof. intros [G1 G2] A B. unfold good, lenok in *. simpl. rewrite A, B. auto. Q
 Lemma key_w_hdr e h : llid h = llid (e_hdr e) -> key (w_hdr e h) = key e.
 Proof. intros A. unfold key. simpl. rewrite A. reflexivity. Qed.
 
+Lemma data_hdr_facts e (md nb : bool) :
+  let h := setb (if md then N.lor (e_hdr e) more_data_flag else e_hdr e) nesn_flag nb in
+  llid h = llid (e_hdr e) /\ has h sn_flag = has (e_hdr e) sn_flag /\ hdr_len h = hdr_len (e_hdr e) /\
+  N.land h header_rfu_mask = N.land (e_hdr e) header_rfu_mask.
+Proof. destruct md; simpl; autorewrite with hdr; auto. Qed.
+
 (* what next_transmit() leaves alone, and the NESN it sends *)
 Lemma next_transmit_frame cf s s' sz h b :
   next_transmit cf s = (s', (sz, h, b)) ->
@@ -283,15 +290,13 @@ Proof.
       rewrite Ho. simpl in Ts. rewrite Ts.
       rewrite (empty_matches_ok _ _ _ (empty_new_ok (m_sn m) (nesn s))).
       eexists; split; [reflexivity|]. unfold TxRel. simpl. rewrite Eq. simpl.
-      repeat split; auto using empty_new_ok. apply empty_new_ok.
+      repeat split; auto; apply empty_new_ok.
     + (* a new data PDU *)
       inversion H; subst; clear H. rewrite Tq. simpl map. cbv iota.
       inversion Tg as [|? ? Ge Gt]; subst. destruct Ta as [Ta1 Ta2].
-      set (h1 := if (2 <=? length (e :: t))%nat then N.lor (e_hdr e) more_data_flag else e_hdr e).
-      assert (A1 : llid (setb h1 nesn_flag (nesn s)) = llid (e_hdr e)) by (unfold h1; destruct (2 <=? _)%nat; autorewrite with hdr; auto).
-      assert (A2 : has (setb h1 nesn_flag (nesn s)) sn_flag = has (e_hdr e) sn_flag) by (unfold h1; destruct (2 <=? _)%nat; autorewrite with hdr; auto).
-      assert (A3 : hdr_len (setb h1 nesn_flag (nesn s)) = hdr_len (e_hdr e)) by (unfold h1; destruct (2 <=? _)%nat; autorewrite with hdr; auto).
-      assert (A4 : N.land (setb h1 nesn_flag (nesn s)) header_rfu_mask = N.land (e_hdr e) header_rfu_mask) by (unfold h1; destruct (2 <=? _)%nat; autorewrite with hdr; auto).
+      match goal with |- context [if ?c then N.lor (e_hdr e) more_data_flag else e_hdr e] => set (md := c) end.
+      destruct (data_hdr_facts e md (nesn s)) as (A1 & A2 & A3 & A4).
+      set (h1 := if md then N.lor (e_hdr e) more_data_flag else e_hdr e) in *.
       rewrite Ho, (data_matches_ok (c_o cf) e (m_sn m) _ Ge Ta1 A1 A2 A3 A4).
       eexists; split; [reflexivity|]. unfold TxRel. simpl.
       rewrite key_w_hdr by exact A1. rewrite Ne.
@@ -305,26 +310,23 @@ Proof.
     + inversion H; subst; clear H.
       rewrite Ho, (empty_matches_ok _ _ _ (empty_ok_setb _ _ (nesn s) Teo)).
       eexists; split; [reflexivity|]. unfold TxRel. rewrite Ec. simpl. rewrite Eq.
-      repeat split; auto. apply (empty_ok_setb _ _ _ Teo).
+      repeat split; auto; apply (empty_ok_setb _ _ _ Teo).
     + inversion H; subst; clear H. simpl.
       rewrite Ho, (empty_matches_ok _ _ _ (empty_ok_setb _ _ (nesn s) Teo)).
       eexists; split; [reflexivity|]. unfold TxRel. rewrite Ec. simpl.
       inversion Tg as [|? ? Ge Gt]; subst. destruct Ta as [Ta1 Ta2].
       rewrite key_w_hdr by (simpl; autorewrite with hdr; auto).
-      repeat split; auto.
+      repeat split; auto; try apply (empty_ok_setb _ _ _ Teo).
       * constructor; auto. apply good_w_hdr; auto; autorewrite with hdr; auto.
-      * apply (empty_ok_setb _ _ _ Teo).
       * autorewrite with hdr. auto.
   - (* a data PDU in flight *)
     destruct Tc as (Ne & Tsn & Ta & Tne & Ts). rewrite Ne in H.
     destruct (r_q (txr s)) as [|e t] eqn:Eq; [congruence|].
     inversion H; subst; clear H. rewrite Tq. simpl map. cbv iota.
     inversion Tg as [|? ? Ge Gt]; subst. destruct Ta as [Ta1 Ta2].
-    set (h1 := if (2 <=? length (e :: t))%nat then N.lor (e_hdr e) more_data_flag else e_hdr e).
-    assert (A1 : llid (setb h1 nesn_flag (nesn s)) = llid (e_hdr e)) by (unfold h1; destruct (2 <=? _)%nat; autorewrite with hdr; auto).
-    assert (A2 : has (setb h1 nesn_flag (nesn s)) sn_flag = has (e_hdr e) sn_flag) by (unfold h1; destruct (2 <=? _)%nat; autorewrite with hdr; auto).
-    assert (A3 : hdr_len (setb h1 nesn_flag (nesn s)) = hdr_len (e_hdr e)) by (unfold h1; destruct (2 <=? _)%nat; autorewrite with hdr; auto).
-    assert (A4 : N.land (setb h1 nesn_flag (nesn s)) header_rfu_mask = N.land (e_hdr e) header_rfu_mask) by (unfold h1; destruct (2 <=? _)%nat; autorewrite with hdr; auto).
+    match goal with |- context [if ?c then N.lor (e_hdr e) more_data_flag else e_hdr e] => set (md := c) end.
+    destruct (data_hdr_facts e md (nesn s)) as (A1 & A2 & A3 & A4).
+    set (h1 := if md then N.lor (e_hdr e) more_data_flag else e_hdr e) in *.
     rewrite Ho, (data_matches_ok (c_o cf) e bd _ Ge Ta1 A1 A2 A3 A4).
     eexists; split; [reflexivity|]. unfold TxRel. rewrite Ec. simpl.
     rewrite key_w_hdr by exact A1. rewrite Ne.
@@ -332,4 +334,264 @@ Proof.
     * constructor; auto. apply good_w_hdr; auto.
     * rewrite A2. auto.
     * discriminate.
+Qed.
+
+Lemma check_resp_txdead tag m sz h b v m' :
+  check_resp tag m sz h b = (v, m') -> m_txdead m' = m_txdead m.
+Proof.
+  unfold check_resp. intros H.
+  destruct (negb _); [inversion H; auto|].
+  destruct (m_txdead m) eqn:D; [inversion H; subst; auto|].
+  destruct (m_cur m).
+  - destruct (m_txq m).
+    + destruct (empty_matches _ _ _ _ _); inversion H; subst; simpl; auto.
+    + destruct (data_matches _ _ _ _ _ _); inversion H; subst; simpl; auto.
+  - destruct (empty_matches _ _ _ _ _); inversion H; subst; simpl; auto.
+  - destruct (m_txq m).
+    + inversion H; subst; simpl; auto.
+    + destruct (data_matches _ _ _ _ _ _); inversion H; subst; simpl; auto.
+Qed.
+
+Lemma next_transmit_rel cf s m s' sz h b tag :
+  Rel cf s m -> next_transmit cf s = (s', (sz, h, b)) ->
+  exists m', check_resp tag m sz h b = (Ok, m') /\ Rel cf s' m'.
+Proof.
+  intros R H. destruct R as [Ro Rn Rq Rg Rs Rm Rt].
+  pose proof (next_transmit_frame _ _ _ _ _ _ H) as (Fn & F1 & F2 & F3 & F4).
+  destruct (m_txdead m) eqn:D.
+  - exists m. split.
+    + unfold check_resp. rewrite Fn, Rn, eqb_reflx, D. reflexivity.
+    + constructor; try congruence.
+  - destruct (next_transmit_tx cf s m s' sz h b tag Ro Rn D (Rt eq_refl) H)
+      as (m' & C & T & Mo & Mn & Mq & Ms & Md).
+    exists m'. split; auto. constructor; try congruence.
+Qed.
+
+Lemma ack_bit_frame s b s' tc :
+  ack_bit s b = (s', tc) ->
+  nesn s' = nesn s /\ rxr s' = rxr s /\ stopped s' = stopped s /\ max_rx s' = max_rx s.
+Proof.
+  unfold ack_bit. intros H. destruct (next_empty s).
+  - destruct (Bool.eqb _ _); inversion H; subst; simpl; auto.
+  - destruct (r_q (txr s)); [inversion H; subst; auto|].
+    destruct (Bool.eqb _ _); inversion H; subst; simpl; auto.
+Qed.
+
+Lemma m_ack_frame m b m' etc :
+  m_ack m b = (m', etc) ->
+  m_o m' = m_o m /\ m_nesn m' = m_nesn m /\ m_rxq m' = m_rxq m /\ m_stopped m' = m_stopped m.
+Proof.
+  unfold m_ack. intros H. destruct (m_txdead m); [inversion H; subst; auto|].
+  destruct (m_cur m); destruct (Bool.eqb _ _); inversion H; subst; simpl; auto.
+Qed.
+
+Lemma ack_bit_tx s m b s' tc m' etc :
+  m_txdead m = false -> TxRel s m -> ack_bit s b = (s', tc) -> m_ack m b = (m', etc) ->
+  m_txdead m' = false -> TxRel s' m' /\ tc = etc.
+Proof.
+  intros D (Tq & Tg & Tc) H M D'. unfold m_ack in M. rewrite D in M. unfold ack_bit in H.
+  destruct (m_cur m) as [|be|bd] eqn:Ec.
+  - destruct Tc as (Ne & Ta & Ts). rewrite Ne in H.
+    destruct (Bool.eqb (m_sn m) b) eqn:E; inversion M; subst; clear M; [|simpl in D'; discriminate].
+    destruct (r_q (txr s)) as [|e t] eqn:Eq.
+    + inversion H; subst. split; auto. unfold TxRel. rewrite Ec, Eq. simpl. repeat split; auto.
+    + destruct Ta as [Ta1 Ta2]. rewrite Ta1, E in H. inversion H; subst. split; auto.
+      unfold TxRel. rewrite Ec, Eq. simpl. repeat split; auto.
+  - destruct Tc as (Ne & Tes & Teo & Tsn & Ta & Ts). rewrite Ne, Tes in H.
+    destruct (Bool.eqb be b) eqn:E; inversion M; subst; clear M; inversion H; subst; clear H.
+    + split; auto. unfold TxRel. rewrite Ec. repeat split; auto; apply Teo.
+    + split; auto. unfold TxRel. simpl. rewrite Tsn. repeat split; auto.
+  - destruct Tc as (Ne & Tsn & Ta & Tne & Ts). rewrite Ne in H.
+    destruct (r_q (txr s)) as [|e t] eqn:Eq; [congruence|].
+    destruct Ta as [Ta1 Ta2]. rewrite Ta1 in H.
+    destruct (Bool.eqb bd b) eqn:E; inversion M; subst; clear M; inversion H; subst; clear H.
+    + split; auto. unfold TxRel. rewrite Ec, Eq. simpl. repeat split; auto; discriminate.
+    + split; auto. unfold TxRel. simpl. rewrite Tq, Tsn. simpl.
+      inversion Tg; subst. rewrite Eq. simpl. repeat split; auto.
+Qed.
+
+Lemma ack_bit_rel cf s m b s' tc m' etc :
+  Rel cf s m -> ack_bit s b = (s', tc) -> m_ack m b = (m', etc) ->
+  Rel cf s' m' /\ (m_txdead m' = false -> tc = etc).
+Proof.
+  intros [Ro Rn Rq Rg Rs Rm Rt] H M.
+  pose proof (ack_bit_frame _ _ _ _ H) as (F1 & F2 & F3 & F4).
+  pose proof (m_ack_frame _ _ _ _ M) as (G1 & G2 & G3 & G4).
+  destruct (m_txdead m) eqn:D.
+  - assert (m' = m) by (unfold m_ack in M; rewrite D in M; inversion M; auto). subst m'.
+    split; [|congruence]. constructor; try congruence.
+  - split.
+    + constructor; try congruence. intros D'. apply (ack_bit_tx s m b s' tc m' etc D (Rt eq_refl) H M D').
+    + intros D'. apply (ack_bit_tx s m b s' tc m' etc D (Rt eq_refl) H M D').
+Qed.
+
+(* changing only the receive side of the model / the monitor keeps the transmit relation *)
+Lemma TxRel_frame s m s' m' :
+  TxRel s m -> txr s' = txr s -> next_empty s' = next_empty s -> empty_sn s' = empty_sn s ->
+  empty_hdr s' = empty_hdr s -> sn s' = sn s ->
+  m_txq m' = m_txq m -> m_cur m' = m_cur m -> m_sn m' = m_sn m -> TxRel s' m'.
+Proof.
+  unfold TxRel. intros T A B C D E F G H. rewrite A, B, C, D, E, F, G, H. exact T.
+Qed.
+
+Lemma blen_app (a : list N) x : blen (a ++ [x]) = blen a + 1.
+Proof. unfold blen. rewrite app_length. simpl. lia. Qed.
+
+Lemma step_rel cf s m o s' r :
+  Rel cf s m -> step cf s o = (s', r) -> exists m', mstep m o r = (Ok, m') /\ Rel cf s' m'.
+Proof.
+  intros R H. pose proof R as [Ro Rn Rq Rg Rs Rm Rt].
+  destruct o as [n|n| | |n hl body| | | |hl body|hl body| ]; unfold step in H.
+  - (* MaxRx *)
+    destruct (size_ok (c_R cf) (c_o cf) n) eqn:E; inversion H; subst; clear H; exists m; split; auto.
+    constructor; simpl; auto; try congruence.
+    unfold size_ok in E. rewrite !andb_true_iff in E. destruct E as [[_ E] _].
+    apply N.leb_le in E. exact E.
+  - (* MaxTx *)
+    destruct (size_ok (c_T cf) (c_o cf) n) eqn:E; inversion H; subst; clear H; exists m; split; auto.
+    constructor; simpl; auto; try congruence.
+  - (* Reset *)
+    inversion H; subst; clear H. eexists; split; [reflexivity|].
+    constructor; simpl; auto; try (unfold min_buffer_size; lia).
+    intros _. unfold TxRel; simpl. auto.
+  - (* Stop *)
+    inversion H; subst; clear H. eexists; split; [reflexivity|].
+    constructor; simpl; auto; try congruence.
+  - (* Tx *)
+    destruct ((256 <=? hl) || has hl header_rfu_mask || (blen body =? 0) || (n <? blen body + 2 + c_o cf)
+              || (max_tx s + c_o cf <? n)) eqn:Pre.
+    { inversion H; subst; clear H. exists m; split; auto. }
+    rewrite !orb_false_iff in Pre. destruct Pre as [[[[P1 P2] P3] P4] P5].
+    apply N.leb_gt in P1.
+    destruct (alloc_front (c_T cf) (txr s) n) as [off|]; [|inversion H; subst; exists m; split; auto].
+    destruct (stopped s) eqn:St.
+    { inversion H; subst; clear H. exists m. split; auto. simpl. rewrite Rs. reflexivity. }
+    inversion H; subst; clear H. simpl. rewrite Rs.
+    eexists; split; [reflexivity|].
+    set (h' := if sn s then N.lor (mkhdr hl body) sn_flag else mkhdr hl body).
+    assert (R2 : N.land hl header_rfu_mask = 0).
+    { unfold has in P2. apply negb_false_iff, N.eqb_eq in P2. exact P2. }
+    assert (K1 : llid h' = llid hl).
+    { unfold h'. destruct (sn s); autorewrite with hdr; unfold llid; apply mkhdr_land; auto. }
+    assert (K2 : hdr_len h' = blen body).
+    { unfold h'. destruct (sn s); autorewrite with hdr; apply mkhdr_len; auto. }
+    assert (K3 : N.land h' header_rfu_mask = 0).
+    { unfold h'. destruct (sn s); autorewrite with hdr; rewrite mkhdr_land; auto. }
+    destruct (N.land hl 28 =? 0) eqn:E28.
+    2:{ constructor; simpl; auto; try congruence. }
+    apply N.eqb_eq in E28.
+    assert (K4 : has h' sn_flag = sn s).
+    { unfold h'. destruct (sn s); autorewrite with hdr; auto.
+      rewrite mkhdr_has by auto. unfold has. rewrite (land_sub hl 28 sn_flag E28 eq_refl). reflexivity. }
+    constructor; simpl; auto; try congruence.
+    intros D. specialize (Rt D). destruct Rt as (Tq & Tg & Tc).
+    unfold TxRel. simpl. rewrite map_app, Tq. simpl.
+    split; [unfold key; simpl; rewrite K1; reflexivity|]. split.
+    { apply Forall_app. split; auto. constructor; auto. split; auto. }
+    destruct (m_cur m).
+    + destruct Tc as (Ne & Ta & Ts). rewrite endsn_app, <- Ts. repeat split; auto.
+      apply alt_app. split; auto. simpl. rewrite K4. exact Ts.
+    + destruct Tc as (Ne & Tes & Teo & Tsn & Ta & Ts). rewrite endsn_app, <- Ts. repeat split; auto; try apply Teo.
+      apply alt_app. split; auto. simpl. rewrite K4. exact Ts.
+    + destruct Tc as (Ne & Tsn & Ta & Tne & Ts). rewrite endsn_app, <- Ts. repeat split; auto.
+      * apply alt_app. split; auto. simpl. rewrite K4. exact Ts.
+      * destruct (r_q (txr s)); simpl; discriminate.
+  - (* Pend *)
+    inversion H; subst; clear H. simpl.
+    destruct (m_txdead m) eqn:D; simpl; [exists m; split; auto|].
+    destruct (Rt eq_refl) as (Tq & _). rewrite Tq.
+    destruct (r_q (txr s')); simpl; exists m; split; auto.
+  - (* NextRecv *)
+    destruct (r_q (rxr s)) as [|e t] eqn:Eq; inversion H; subst; clear H; simpl; rewrite Rq; simpl.
+    + exists m; split; auto.
+    + rewrite N.eqb_refl, leqb_refl. simpl.
+      inversion Rg as [|? ? Ge Gt]; subst. unfold lenok in Ge. unfold msz. rewrite Ge, Ro, N.eqb_refl.
+      exists m; split; auto.
+  - (* FreeRecv *)
+    destruct (r_q (rxr s)) as [|e t] eqn:Eq; inversion H; subst; clear H; simpl; rewrite Rq; simpl.
+    + exists m; split; auto.
+    + eexists; split; [reflexivity|].
+      inversion Rg; subst. constructor; simpl; auto; try congruence; rewrite ?Eq; simpl; auto.
+  - (* Rx *)
+    destruct ((256 <=? hl) || (max_rx s - 2 <? blen body)) eqn:Pre.
+    { inversion H; subst; clear H. exists m; split; auto. }
+    rewrite orb_false_iff in Pre. destruct Pre as [P1 P2]. apply N.leb_gt in P1. apply N.ltb_ge in P2.
+    destruct (alloc_front (c_R cf) (rxr s) (max_rx s + c_o cf)) as [off|].
+    2:{ destruct (next_transmit cf s) as [s1 [[sz h] b]] eqn:NT. inversion H; subst; clear H.
+        destruct (next_transmit_rel cf s m s' sz h b t_nesn_nobuf R NT) as (m' & C & R').
+        exists m'. simpl. rewrite C. simpl. auto. }
+    unfold received in H.
+    destruct (ack_bit s (has (mkhdr hl body) nesn_flag)) as [s1 tc] eqn:AB.
+    rewrite mkhdr_has in AB by auto.
+    destruct (m_ack m (has hl nesn_flag)) as [m1 etc] eqn:MA.
+    destruct (ack_bit_rel cf s m _ s1 tc m1 etc R AB MA) as (R1 & TC).
+    pose proof R1 as [Ro1 Rn1 Rq1 Rg1 Rs1 Rm1 Rt1].
+    assert (BL : blen body < 256) by lia.
+    rewrite (mkhdr_has hl body sn_flag P1 eq_refl) in H.
+    rewrite (mkhdr_len_land hl body P1 BL) in H.
+    change (N.land (mkhdr hl body) 3) with (llid (mkhdr hl body)) in H.
+    assert (LL : llid (mkhdr hl body) = llid hl) by (unfold llid; apply mkhdr_land; auto).
+    rewrite LL in H.
+    simpl mstep. rewrite MA. rewrite Rn1.
+    (* the state and monitor after the acceptance decision *)
+    match type of H with
+    | (let '(s2, rc) := ?X in _) = _ => destruct X as [s2 rc] eqn:ACC
+    end.
+    destruct (next_transmit cf s2) as [s3 [[sz h] b]] eqn:NT. inversion H; subst; clear H.
+    match goal with
+    | |- context [check_resp t_nesn_rx ?M2 _ _ _] => set (m2 := M2)
+    end.
+    assert (R2 : Rel cf s2 m2 /\ rc = (if Bool.eqb (has hl sn_flag) (nesn s1) && negb (blen body =? 0) then 1 else 0)
+                 /\ m_txdead m2 = m_txdead m1).
+    { unfold m2. destruct (Bool.eqb (has hl sn_flag) (nesn s1)) eqn:New.
+      - destruct (blen body =? 0) eqn:Z; simpl negb in *; cbv iota in ACC.
+        + inversion ACC; subst; clear ACC. simpl. split; [|split]; auto.
+          constructor; simpl; auto; try congruence. rewrite Rn1; auto.
+          intros D. apply (TxRel_frame s1 m1); auto.
+        + destruct (llid hl =? 0) eqn:L0; simpl negb in *; cbv iota in ACC; inversion ACC; subst; clear ACC; simpl.
+          * split; [|split]; auto. constructor; simpl; auto; try congruence. rewrite Rn1; auto.
+            intros D. apply (TxRel_frame s1 m1); auto.
+          * split; [|split]; auto. constructor; simpl; auto; try congruence.
+            -- rewrite Rn1; auto.
+            -- rewrite map_app, Rq1. reflexivity.
+            -- apply Forall_app. split; auto. constructor; auto. unfold lenok. simpl. apply mkhdr_len; auto.
+            -- intros D. apply (TxRel_frame s1 m1); auto.
+      - inversion ACC; subst; clear ACC. simpl. auto. }
+    destruct R2 as (R2 & RC & D2).
+    destruct (next_transmit_rel cf s2 m2 s' sz h b t_nesn_rx R2 NT) as (m3 & C & R3).
+    rewrite C. pose proof (check_resp_txdead _ _ _ _ _ _ _ C) as D3.
+    rewrite RC, N.eqb_refl. simpl negb. cbv iota.
+    unfold tc_ok. destruct (m_txdead m3) eqn:D; simpl.
+    + exists m3; auto.
+    + rewrite (TC ltac:(congruence)), N.eqb_refl. simpl. exists m3; auto.
+  - (* Mic *)
+    destruct ((256 <=? hl) || (max_rx s - 2 <? blen body)) eqn:Pre.
+    { inversion H; subst; clear H. exists m; split; auto. }
+    rewrite orb_false_iff in Pre. destruct Pre as [P1 P2]. apply N.leb_gt in P1. apply N.ltb_ge in P2.
+    destruct (alloc_front (c_R cf) (rxr s) (max_rx s + c_o cf)) as [off|].
+    2:{ destruct (next_transmit cf s) as [s1 [[sz h] b]] eqn:NT. inversion H; subst; clear H.
+        destruct (next_transmit_rel cf s m s' sz h b t_nesn_nobuf R NT) as (m' & C & R').
+        exists m'. simpl. rewrite C. simpl. auto. }
+    unfold acknowledge_pdu in H.
+    change (N.land (mkhdr hl body) 3) with (llid (mkhdr hl body)) in H.
+    assert (LL : llid (mkhdr hl body) = llid hl) by (unfold llid; apply mkhdr_land; auto).
+    rewrite LL, mkhdr_has in H by auto.
+    simpl mstep.
+    destruct (negb (llid hl =? 0)) eqn:L0.
+    + destruct (ack_bit s (has hl nesn_flag)) as [s1 tc] eqn:AB.
+      destruct (m_ack m (has hl nesn_flag)) as [m1 etc] eqn:MA.
+      destruct (ack_bit_rel cf s m _ s1 tc m1 etc R AB MA) as (R1 & TC).
+      destruct (next_transmit cf s1) as [s3 [[sz h] b]] eqn:NT. inversion H; subst; clear H.
+      destruct (next_transmit_rel cf s1 m1 s' sz h b t_nesn_mic R1 NT) as (m3 & C & R3).
+      rewrite C. pose proof (check_resp_txdead _ _ _ _ _ _ _ C) as D3. simpl.
+      unfold tc_ok. destruct (m_txdead m3) eqn:D; simpl.
+      * exists m3; auto.
+      * rewrite (TC ltac:(congruence)), N.eqb_refl. simpl. exists m3; auto.
+    + destruct (next_transmit cf s) as [s3 [[sz h] b]] eqn:NT. inversion H; subst; clear H.
+      destruct (next_transmit_rel cf s m s' sz h b t_nesn_mic R NT) as (m3 & C & R3).
+      rewrite C. simpl. unfold tc_ok. rewrite orb_true_r. simpl. exists m3; auto.
+  - (* NextTx *)
+    destruct (next_transmit cf s) as [s1 [[sz h] b]] eqn:NT. inversion H; subst; clear H.
+    destruct (next_transmit_rel cf s m s' sz h b t_nesn_nt R NT) as (m' & C & R').
+    exists m'. simpl. rewrite C. simpl. auto.
 Qed.
